@@ -542,8 +542,14 @@ def _concatenate(ev, a, sh, at):
 def _search(ev, a, sh, at):
     f, t = _text_arg(ev, a[0], sh, at), _text_arg(ev, a[1], sh, at)
     s = _int_arg(ev, a[2], sh, at) if len(a) == 3 else 1
-    if s < 1 or s > len(t):
+    if s > len(t):
         raise XlError('#VALUE!')
+    if s < 1:
+        # "at or after s" with s < 1: Excel answers #VALUE!, reading it as "from the start" is not excluded by the statement
+        if ev.choose('search_start_below_one_searches_from_start'):
+            s = 1
+        else:
+            raise XlError('#VALUE!')
     if f == '':
         raise NoOpinion('empty needle')
     m = re.compile(wildcard_regex(f), re.I | re.S).search(t, s - 1)
